@@ -1,5 +1,6 @@
 import Zc.Model.Responder
 import Zc.Model.RespSpec
+import Zc.Model.RespScope
 /-! Driver commands of C03 (one scenario per line).
 
 * `c03 <n> op…` — a registry history with queries; prints one observation per op, joined by ` | `.
@@ -7,7 +8,10 @@ import Zc.Model.RespSpec
   `M <hexkey> <mut>` (attribute write on the registered object) · `Q <n> msg…` (async_response).
   `svc` = type name server port weight priority text hostTtl otherTtl <n4> v4… <n6> v6…
   `mut` = `port n | weight n | priority n | text hex | httl n | ottl n | addrs <n4> … <n6> …`
-  `msg` = isProbe <nq> question… <nk> record…
+  `msg` = isProbe hasScope <nq> question… <nk> record…   (`hasScope`: the packet was parsed with a scope id, i.e. received on
+  an IPv6 socket; whether the suppression then looks at the known answers without their scope ids is the translated test
+  `treeUnscopes`, so the model follows a tree with and without the D25 repair)
+  `str.lower` is `lowerD`: ASCII lowering plus `É → é` (the only non-ASCII letters the generators use are `É`, `é`, `ß` and uncased CJK).
 * `c03p <n> (rec <m> rec…)…` — `_add_answers_additionals` on a dict: `answers # additionals`.
 * `c03o <ns> svc… <nq> q… <nk> known… <n> (rec <m> rec…)…` — the property predicates on an *observed*
   answer map: `s=<bit per answer> c=<bit> a=<bit per answer>`.
@@ -15,6 +19,10 @@ import Zc.Model.RespSpec
 * `c03n <na> rec… <nb> rec…` — `noRepeat answers additionals`. -/
 namespace Zc.Driver.C03
 open Zc
+
+/-- the driver's `str.lower`: ASCII, plus `É → é` (the harness checks `str.lower` against this on every name it generates;
+`ß` is its own lower-case form) -/
+def lowerD (s : String) : String := s.map (fun c => if c = 'É' then 'é' else c.toLower)
 
 def strList (l : List String) : String := if l.isEmpty then "-" else ",".intercalate (l.map hexOfStr)
 
@@ -37,12 +45,12 @@ def mutP : Tok Mut := do
   | "addrs" => do let a ← Tok.list Tok.bytes; let b ← Tok.list Tok.bytes; pure (.addrs a b)
   | _ => failure
 
-def msgP : Tok Msg := do
-  let p ← Tok.bool; let qs ← Tok.list Question.parse; let ans ← Tok.list Rec.parse
-  pure { isProbe := p, questions := qs, answers := ans }
+def msgP : Tok QPkt := do
+  let p ← Tok.bool; let sc ← Tok.bool; let qs ← Tok.list Question.parse; let ans ← Tok.list Rec.parse
+  pure { msg := { isProbe := p, questions := qs, answers := ans }, hasScope := sc }
 
 inductive Op where
-  | reg (s : Svc) | upd (s : Svc) | unreg (ks : List String) | mut (k : String) (m : Mut) | query (msgs : List Msg)
+  | reg (s : Svc) | upd (s : Svc) | unreg (ks : List String) | mut (k : String) (m : Mut) | query (msgs : List QPkt)
 
 def opP : Tok Op := do
   let k ← Tok.next
@@ -58,7 +66,7 @@ def idxStr (idx : NameIndex) : String :=
   if idx.isEmpty then "-" else ";".intercalate (idx.map (fun p => s!"{hexOfStr p.1}:{strList p.2}"))
 
 def dump (reg : Registry) : String :=
-  s!"S={strList (reg.services.map (·.key asciiLower))} T={idxStr reg.types} H={idxStr reg.servers} E={if reg.hasEntries then 1 else 0}"
+  s!"S={strList (reg.services.map (·.key lowerD))} T={idxStr reg.types} H={idxStr reg.servers} E={if reg.hasEntries then 1 else 0}"
 
 def entryStr (p : Rec × List Rec) : String := " , ".intercalate (p.1.toLine :: p.2.map Rec.toLine)
 
@@ -68,20 +76,20 @@ def memoStr (reg : Registry) : String :=
   if reg.services.isEmpty then "-" else
   ";".intercalate (reg.services.map (fun s =>
     let b (x : Bool) := if x then "1" else "0"
-    s!"{hexOfStr (s.key asciiLower)}:{b s.ptrMemo.isSome}{b s.srvMemo.isSome}{b s.txtMemo.isSome}{b s.addrMemo.isSome}{b s.anMemo.isSome}"))
+    s!"{hexOfStr (s.key lowerD)}:{b s.ptrMemo.isSome}{b s.srvMemo.isSome}{b s.txtMemo.isSome}{b s.addrMemo.isSome}{b s.anMemo.isSome}"))
 
 def stepOp (reg : Registry) : Op → Registry × String
-  | .reg s => match reg.add asciiLower s with
+  | .reg s => match reg.add lowerD s with
     | .ok r => (r, s!"ok # {dump r}")
     | .error e => (reg, s!"{e.name} # {dump reg}")
-  | .upd s => match reg.update asciiLower s with
+  | .upd s => match reg.update lowerD s with
     | .ok r => (r, s!"ok # {dump r}")
     | .error e => (reg, s!"{e.name} # {dump reg}")
-  | .unreg ks => match reg.remove asciiLower ks with
+  | .unreg ks => match reg.remove lowerD ks with
     | .ok r => (r, s!"ok # {dump r}")
     | .error e => (reg, s!"{e.name} # {dump reg}")
-  | .mut k m => let r := reg.mutate asciiLower k m; (r, s!"ok # {dump r}")
-  | .query msgs => match respond asciiLower Gen.dnsOtherTtl reg msgs with
+  | .mut k m => let r := reg.mutate lowerD k m; (r, s!"ok # {dump r}")
+  | .query msgs => match respondQ treeUnscopes lowerD Gen.dnsOtherTtl reg msgs with
     | .ok (none, r) => (r, s!"none # {memoStr r}")
     | .ok (some d, r) => (r, s!"{dictStr d} # {memoStr r}")
     | .error e => (reg, s!"{e.name} # {memoStr reg}")
@@ -104,7 +112,7 @@ def c03 (toks : List String) : String :=
 
 def c03p (toks : List String) : String :=
   match (do let d ← Tok.list entryP; Tok.done; pure d : Tok DictRS).run toks with
-  | some (d, _) => let (a, b) := packetize asciiLower d; s!"{recsStr a} # {recsStr b}"
+  | some (d, _) => let (a, b) := packetize lowerD d; s!"{recsStr a} # {recsStr b}"
   | none => "bad-op"
 
 def c03o (toks : List String) : String :=
@@ -112,20 +120,20 @@ def c03o (toks : List String) : String :=
             let d ← Tok.list entryP; Tok.done; pure (svcs, qs, known, d) : Tok (List Svc × List Question × List Rec × DictRS)).run toks with
   | some ((svcs, qs, known, d), _) =>
     let ettl := Gen.dnsOtherTtl
-    let s := d.map (fun p => RespSpec.soundAnswer asciiLower ettl svcs qs known p.1)
-    let c := RespSpec.complete asciiLower ettl svcs qs known (d.map (·.1))
-    let a := d.map (fun p => RespSpec.additionalsOk asciiLower ettl svcs p)
+    let s := d.map (fun p => RespSpec.soundAnswer lowerD ettl svcs qs known p.1)
+    let c := RespSpec.complete lowerD ettl svcs qs known (d.map (·.1))
+    let a := d.map (fun p => RespSpec.additionalsOk lowerD ettl svcs p)
     s!"s={bits s} c={if c then 1 else 0} a={bits a}"
   | none => "bad-op"
 
 def c03e (toks : List String) : String :=
   match (do let svcs ← Tok.list svcP; let ts ← Tok.list Tok.str; Tok.done; pure (svcs, ts) : Tok (List Svc × List String)).run toks with
-  | some ((svcs, ts), _) => if RespSpec.enumBacked asciiLower svcs ts then "1" else "0"
+  | some ((svcs, ts), _) => if RespSpec.enumBacked lowerD svcs ts then "1" else "0"
   | none => "bad-op"
 
 def c03n (toks : List String) : String :=
   match (do let a ← Tok.list Rec.parse; let b ← Tok.list Rec.parse; Tok.done; pure (a, b) : Tok (List Rec × List Rec)).run toks with
-  | some ((a, b), _) => if RespSpec.noRepeat asciiLower a b then "1" else "0"
+  | some ((a, b), _) => if RespSpec.noRepeat lowerD a b then "1" else "0"
   | none => "bad-op"
 
 def dispatch (cmd : String) (rest : List String) : Option String :=
